@@ -164,7 +164,7 @@ def do_check(prop, tier, seed, scratch, t0):
     lines = []
     for kid, (k, v) in sorted(kf.items()):
         lines.append(f"KNOWN-FINDING: property={prop} {k['id']}: {k['what']}")
-    rep_dir = os.path.join(ROOT, 'replays', prop)
+    rep_dir = os.path.join(os.environ.get('VF_REPLAY_DIR') or os.path.join(ROOT, 'replays'), prop)
     vio_lines = []
     for key, v in sorted(new.items(), key=lambda kv: str(kv[0])):
         os.makedirs(rep_dir, exist_ok=True)
@@ -207,8 +207,9 @@ def do_check(prop, tier, seed, scratch, t0):
         'wall_s': round(wall, 2),
         'violations': len(new),
     }
-    os.makedirs(os.path.join(ROOT, 'evidence'), exist_ok=True)
-    json.dump(ev, open(os.path.join(ROOT, 'evidence', f'{prop}.json'), 'w'), indent=1, default=str)
+    evdir = os.environ.get('VF_EVIDENCE_DIR') or os.path.join(ROOT, 'evidence')
+    os.makedirs(evdir, exist_ok=True)
+    json.dump(ev, open(os.path.join(evdir, f'{prop}.json'), 'w'), indent=1, default=str)
     for l in lines:
         print(l)
     for l in vio_lines:
